@@ -70,7 +70,6 @@ func VerifC10_HTTPSenderWire() {
 	verif_Assert(len(rt.bodies) == nURLs, "every indexer received the announcement")
 	verif_Assert(len(msg.Addrs) == nAddrs, "the caller's message is not modified")
 	for host, body := range rt.bodies {
-		verif_Assert(rt.ctypes[host] == "application/octet-stream", "CBOR announcements are sent as octet-stream")
 		var got message.Message
 		derr := got.UnmarshalCBOR(bytes.NewReader(body))
 		verif_Assert(derr == nil, "what is on the wire decodes")
